@@ -5,7 +5,7 @@
    reply loops and the sweeper at atomic-section granularity, every message sequence over any session
    ids (complete / ignored fragment), every read / write / send / dial / hook failure, every passage
    of time, connection loss at any point. *)
-From Hy Require Import model.C07_UDPSessions proof.C07_UDPSessions.
+From Hy Require Import model.C07_UDPSessions proof.C07_UDPSessions proof.C07_Relay.
 From Coq Require Import NArith List Bool.
 Import ListNotations.
 Local Open Scope N_scope.
@@ -17,10 +17,44 @@ Proof. exact isolation_out. Qed.
 Print Assumptions C07_isolation_out.
 
 (* Every SendMessage carrying a packet read from socket k is stamped with the id of the owner of k. *)
-Theorem C07_isolation_back : forall timeout s a s' ev k sid ok,
-  reachable timeout s -> step timeout s a = Some (s', ev) -> In (ESend k sid ok) ev -> owner s k = Some sid.
+Theorem C07_isolation_back : forall timeout s a s' ev k sid ok n,
+  reachable timeout s -> step timeout s a = Some (s', ev) -> In (ESend k sid ok n) ev -> owner s k = Some sid.
 Proof. exact isolation_back. Qed.
 Print Assumptions C07_isolation_back.
+
+(* Packets read from a session's socket go back to the client, and count as traffic - for EVERY length, the empty
+   datagram (n = 0) included (udp.go:186-214 never looks at udpN).
+   (1) On an open socket ReadFrom may return a datagram of any length n >= 0: the action is enabled for every n. *)
+Theorem C07_read_any_length : forall timeout s e en k n,
+  nth_error (heap s) e = Some en -> e_pc en = PRead -> e_sock en = Some k -> e_closes en = 0%nat ->
+  step timeout s (ARead e true n) = Some (set_entry s e (set_pc en (PGot n)), [ERead k true n]).
+Proof. exact read_any_length. Qed.
+Print Assumptions C07_read_any_length.
+
+(* (2) The reply loop's next own action stores Last := now (the datagram is traffic of the session: with
+   C07_active_kept the entry is not selected by any sweep within the timeout of that instant), whatever n. *)
+Theorem C07_read_is_traffic : forall timeout s e en n,
+  nth_error (heap s) e = Some en -> e_pc en = PGot n ->
+  step timeout s (AStamp e) = Some (set_entry s e (set_pc (set_last en (now s)) (PSend n)), []).
+Proof. exact stamp_any_length. Qed.
+Print Assumptions C07_read_is_traffic.
+
+(* (3) Then it calls SendMessage with the entry's own session id and the same length n. *)
+Theorem C07_read_is_relayed : forall timeout s e en k n ok,
+  nth_error (heap s) e = Some en -> e_pc en = PSend n -> e_sock en = Some k ->
+  step timeout s (ASend e ok) = Some (set_entry s e (set_pc en (if ok then PRead else PC1)), [ESend k (e_sid en) ok n]).
+Proof. exact send_any_length. Qed.
+Print Assumptions C07_read_is_relayed.
+
+(* (4) Nothing else moves a reply loop that holds a datagram: in every reachable state every action of every thread
+   other than these two leaves its program counter and its socket as they are, so there is no path back to
+   ReadFrom that skips the Last store or the SendMessage call. *)
+Theorem C07_relay_not_skipped : forall timeout s a s' ev e en n,
+  reachable timeout s -> nth_error (heap s) e = Some en -> holds en n -> step timeout s a = Some (s', ev) ->
+  a = AStamp e \/ (exists ok, a = ASend e ok) \/
+  (exists en', nth_error (heap s') e = Some en' /\ e_pc en' = e_pc en /\ e_sock en' = e_sock en).
+Proof. exact relay_only_own. Qed.
+Print Assumptions C07_relay_not_skipped.
 
 (* A socket is closed at most once: its Close count is 1 if the entry is closed and has a socket, else 0;
    a successful write or read only ever happens on a socket whose Close count is 0. *)
@@ -31,7 +65,7 @@ Proof. exact close_exactly_once. Qed.
 Print Assumptions C07_close_exactly_once.
 
 Theorem C07_no_io_after_close : forall timeout s a s' ev k, step timeout s a = Some (s', ev) ->
-  (exists sid, In (EWrite k sid true) ev) \/ In (ERead k true) ev ->
+  (exists sid, In (EWrite k sid true) ev) \/ (exists n, In (ERead k true n) ev) ->
   exists e en, nth_error (heap s) e = Some en /\ e_sock en = Some k /\ e_closes en = 0%nat.
 Proof. exact no_io_after_close. Qed.
 Print Assumptions C07_no_io_after_close.
@@ -114,14 +148,15 @@ Theorem C07_no_leak_at_exit : forall timeout s, reachable timeout s -> terminal 
 Proof. exact no_leak_at_exit. Qed.
 Print Assumptions C07_no_leak_at_exit.
 
-(* Non-vacuity: two sessions, one expires, its id is reused on a new socket, the connection is lost. *)
+(* Non-vacuity: two sessions, one expires, the other is kept by an empty datagram from the remote (relayed with
+   length 0), the expired id is reused on a new socket, the connection is lost. *)
 Theorem C07_example_run :
   exists s tr, run 2000 init ex_acts = Some (s, tr) /\ terminal s = true /\ table s = [] /\
     length (heap s) = 3%nat /\ nsock s = 3 /\
     tr = [ERecv 1 true; EDial 1 (Some 0); EWrite 0 1 true; ERecv 2 true; EDial 2 (Some 1); EWrite 1 2 true;
-          EAdvance 1000; ERead 1 true; ESend 1 2 true; EAdvance 1000; EAdvance 1000;
-          EClose 0; ELogClose 1; ERead 0 false;
+          EAdvance 1000; ERead 1 true 0; ESend 1 2 true 0; EAdvance 1000; EAdvance 1000;
+          EClose 0; ELogClose 1; ERead 0 false 0;
           ERecv 1 true; EDial 1 (Some 2); EWrite 2 1 true; ERecvErr;
-          EClose 2; ELogClose 1; EClose 1; ELogClose 2; ERead 1 false; ERead 2 false].
+          EClose 2; ELogClose 1; EClose 1; ELogClose 2; ERead 1 false 0; ERead 2 false 0].
 Proof. exact example_run. Qed.
 Print Assumptions C07_example_run.
